@@ -71,6 +71,7 @@ def c01_cases(tier, seed):
     cs += gens.g_ent_cycles(12 if q else 32) + gens.g_ent_fanout([1, 2, 3, 16, 255, 256], [1, 2, 9, 10, 11]) + gens.g_ent_random(seed, 500 if q else 5000)
     cs += gens.g_cst(seed, 400 if q else 4000, flags="", renderings=2, hoist=True)
     cs += gens.g_nonchar() + gens.g_long(flags="")
+    cs += gens.g_entity_value_prefixes() + gens.g_big_charrefs()
     # every proper prefix of documents that exercise every kind of DTD declaration, with quoted literals of both styles
     for zoo in DTD_ZOO:
         b_ = zoo.encode()
@@ -259,6 +260,18 @@ def c07_cases(tier, seed):
     cs.append(Case("<!DOCTYPE r [<!ENTITY % x 'PE'><!ENTITY x 'GE'>]><r>&x;</r>", "nc", True,
                    meta={"gen": "pe-not-ge", "expect_content": ["Q 1 - x72", "X 2 " + spec.hexs("GE")]}))
     cs += gens.g_ent_nested_elems(flags="nc")
+    # the equivalence also holds under a nodes_limit that the inline document just meets: text arriving in several
+    # pieces (literal + entity value + CDATA ...) is ONE node, so the hoisted document needs no larger limit
+    for decls, body, n, content in (
+            ([("e", "bc")], "<r>a&e;</r>", 3, ["Q 1 - x72", "X 2 " + spec.hexs("abc")]),
+            ([("e", "bc")], "<r>&e;a</r>", 3, ["Q 1 - x72", "X 2 " + spec.hexs("bca")]),
+            ([("e", "b&f;"), ("f", "c")], "<r>a&e;d</r>", 3, ["Q 1 - x72", "X 2 " + spec.hexs("abcd")]),
+            ([("e", "y")], "<r><a/>x&e;<![CDATA[z]]>&e;<b/></r>", 5, ["Q 1 - x72", "Q 2 - x61", "X 3 " + spec.hexs("xyzy"), "Q 4 - x62"]),
+            ([("e", "<![CDATA[y]]>")], "<r>x&e;z</r>", 3, ["Q 1 - x72", "X 2 " + spec.hexs("xyz")]),
+            ([("e", "<a>p&f;</a>q"), ("f", "r")], "<r>o&e;&f;</r>", 6, ["Q 1 - x72", "X 2 x6f", "Q 3 - x61", "X 4 " + spec.hexs("pr"), "X 5 " + spec.hexs("qr")])):
+        for lim in (n, n + 1):
+            cs.append(Case(gens.ent_doc(decls, body), "nc", True, lim, meta={"gen": "hoisted-under-exact-limit", "limit": lim, "expect_content": content}))
+        cs.append(Case(gens.ent_doc(decls, body), "nc", True, n - 1, meta={"gen": "hoisted-under-exact-limit", "limit": n - 1, "expect": "NodesLimitReached"}))
     # several top-level references in ONE text run / ONE attribute value, each within the documented budget of
     # 255 nested references, together beyond it: the budget is per top-level reference, so this equals the inline text
     for n, k in ((128, 2), (200, 2), (255, 2), (100, 3), (10, 30), (3, 100)):
@@ -494,7 +507,7 @@ def c09_cases(tier, seed):
     cs += gens.g_ent_fanout(sorted(set(fs)), list(range(1, 13)), flags="c")
     cs += gens.g_ent_fanout_attr_leaf([1, 2, 3, 4, 6, 10, 15, 16], [1, 2, 3, 4], flags="c")
     cs += gens.g_ent_chains(14, flags="c")
-    cs += gens.g_ent_empty(flags="c")
+    cs += gens.g_ent_empty(flags="c") + gens.g_ent_charrefs_free(flags="c")
     cs += gens.g_ent_toplevel(1000 if q else 100000, flags="c")
     cs += gens.g_ent_random(seed, 1500 if q else 15000, flags="c")
     return cs
@@ -892,6 +905,25 @@ def scale_families(tier):
 def c01_extra(tier, seed, harness_rel, harness_dbg):
     fails = []
     info = []
+    # the DEBUG build (overflow checks, debug assertions) on the small inputs of the corpus: arithmetic that wraps
+    # silently in release panics here
+    if harness_dbg:
+        q = tier == "quick"
+        seen, small = set(), []
+        for c in c01_cases(tier, seed):
+            if len(c.data) <= 120 and c.data not in seen and c.limit == U32MAX and c.dtd:
+                seen.add(c.data)
+                small.append(Case(c.data, "", True, meta=c.meta))
+        rnd = random.Random(seed)
+        keep = [c for c in small if (c.meta or {}).get("gen") in ("charref-width", "entity-value-prefix")]
+        rest = [c for c in small if (c.meta or {}).get("gen") not in ("charref-width", "entity-value-prefix")]
+        small = keep + rnd.sample(rest, min(len(rest), 4000 if q else 40000))
+        res = rxlib.run_sharded(harness_dbg, ["dump"], small, os.path.join(BUILD, "work-C01"), "dbg")
+        bad = [(i, res[i][0] if res[i] else "no output") for i in range(len(small)) if rxlib.result_class(res[i]) not in ("ok", "err")]
+        info.append({"family": "corpus-debug-build", "cases": len(small), "failures": len(bad)})
+        for i, head in bad[:3]:
+            fails.append({"why": "parse does not return Ok/Err under the debug build (overflow check / debug assertion): " + head,
+                          "family": "corpus-debug-build", "input": small[i].data.decode("utf-8", "replace")[:300], "input_hex": small[i].data.hex()})
     for name, data, expect in scale_families(tier):
         for hname, h in (("release", harness_rel), ("debug", harness_dbg)):
             if h is None:
@@ -1093,7 +1125,7 @@ defprop("C12", "proof", {"R", "L", "LQ", "LB"}, lambda t, s: api_docs(t, s, "ncl
 defprop("C13", "proof", {"R", "P", "PA"}, c13_cases_with_shift, oracle=oracles.o_ranges, relation=c13_relation,
         rule="random documents (layout variation, non-ASCII), DOCTYPE-free for the nesting clauses, entity-expanded for validity, saturation families, shift pairs",
         technique="Coq model with positions + range lemmas (partial) + correspondence + range oracle")
-defprop("C14", "other", {"R", "E", "EV", "TP"}, c14_cases, oracle=oracles.o_positions, relation=c14_relation,
+defprop("C14", "proof", {"R", "E", "EV", "EM", "TP"}, c14_cases, oracle=oracles.o_positions, relation=c14_relation,
         nontrivial=lambda c, l: rxlib.result_class(l) == "err",
         rule="errors produced by meta strings, mutations, token strings, the ill-forming catalogue, entity graphs; text_pos_at for every offset 0..len+2; whitespace-insertion pairs; non-trivial = rejected",
         technique="Coq proof of the position function against its specification + correspondence")
